@@ -69,6 +69,16 @@ def language_lemmas(chk):
                                   'probes': {'s': s}})
 
 
+def canary_language(ex):
+    """claiming that accepted names contain no digits must be refuted"""
+    s_ = z3.String('s!c19canary')
+    narrow = z3.InRe(s_, z3.Concat(z3.Re('CUSTOM_'), z3.Star(z3.Union(
+        z3.Range('A', 'Z'), z3.Re('_')))))
+    ex.oblige('C19.canary.language', z3.Implies(regex.schema_accepts(
+        rc_schema.POST_RC_SCHEMA_V1_2['properties']['name'], s_), narrow),
+        'canary')
+
+
 def schema_ok(sch):
     """the schema is one of the name schemas (whose language is proved above),
     by identity of its string-level keywords"""
@@ -336,6 +346,9 @@ def build(tier, seed):
     chk.script('Trait.destroy', script_trait_destroy,
                ['placement/objects/trait.py:Trait.destroy',
                 'placement/objects/trait.py:Trait._destroy_in_db'])
+    chk.script('_trait_sync', script_trait_sync,
+               ['placement/objects/trait.py:_trait_sync'])
+    chk.canary('canary.language', canary_language)
     chk.replayer('C19.', replay_c19)
     chk.fallback('B4.c19.sync_and_histories', lambda: replay_c19(None),
                  'start-up synchronisation of traits and classes from an empty, a partially and a fully synchronised database (twice each: idempotence, fixed ids of standard classes), 28 name probes x 4 creation routes (newline, escapes, lower case, 255/256 characters, missing prefix), creation / deletion / re-creation histories with id checks, deletion and rename of standard entries',
@@ -343,6 +356,139 @@ def build(tier, seed):
     chk.assume('A-int', 'A-heap', 'A-orm', 'A-key', 'A-txn', 'A-lib',
                'A-str')
     return chk
+
+
+# --------------------------------------------------------------------------
+# start-up synchronisation of the traits table
+def rows_of(I):
+    return I.ghost.get('bulk.rows.traits')
+
+
+def script_trait_sync(ex):
+    """_trait_sync from ANY traits table: afterwards every os-traits symbol
+    has a row, no existing row changed, only missing standard names were
+    added; from a fully synchronised table nothing is written"""
+    import os_traits
+    from pyvc import sqltext
+    from pyvc.values import SList, SSet
+    reg = registry()
+    # the library's symbol list is abstracted to an arbitrary list of names
+    # outside the CUSTOM_ namespace (the proof then holds for the installed
+    # list in particular; that no installed symbol is custom is checked
+    # natively below)
+    box = {}
+
+    def get_traits(I, a, k):
+        lst = I.fresh_list('os_traits', 'str')
+        j = z3.Int('j!std')
+        I.ex.hyp(ops.forall([j], z3.Implies(
+            z3.And(j >= 0, j < lst.len), z3.Not(custom(z3.Select(lst.arr, j)))),
+            patterns=[z3.Select(lst.arr, j)]))
+        box['std'] = lst
+        return lst
+    reg['calls'][id(os_traits.get_traits)] = get_traits
+    custom = z3.Function('custom_prefixed', StrSort, z3.BoolSort())
+    reg['calls'][id(os_traits.is_custom)] = \
+        lambda I, a, k: Sym(custom(to_term(a[0], 'str')), 'bool')
+
+    class _Rows(Native):
+        def __init__(self, rows):
+            self.rows = rows
+
+        def getattr(self, I, name):
+            from pyvc.values import BoundMethod
+            if name == 'fetchall':
+                class _F(Native):
+                    def call(s, I_, a, k):
+                        return a[0].rows
+                return BoundMethod(self, _F())
+            raise Undecided('result.%s' % name)
+
+    def names_select(I, stmt, binds):
+        text, values = sqltext.normal_form(stmt, binds)
+        I.ex.oblige('C19.sql.trait_names', text ==
+                    'SELECT traits.name FROM traits', 'A', {'built': text})
+        if text != 'SELECT traits.name FROM traits':
+            raise Undecided('trait names SELECT differs from its spec')
+        t = I.db.tables['traits']
+        rows = I.fresh_list('names', ('tuple', ('str',)))
+        k, j = z3.Int('k!names'), z3.Int('j!names')
+        nm = lambda jj: sort_key_acc(rows, jj)
+        at = z3.Function(I.ex.fresh_name('row_at'), z3.IntSort(), z3.IntSort())
+        I.ex.hyp(ops.forall([k], z3.Implies(
+            z3.Select(t.exists, k),
+            z3.And(at(k) >= 0, at(k) < rows.len,
+                   nm(at(k)) == z3.Select(t.data['name'], k))),
+            patterns=[z3.Select(t.exists, k)]))
+        src = z3.Function(I.ex.fresh_name('row_of'), z3.IntSort(), z3.IntSort())
+        I.ex.hyp(ops.forall([j], z3.Implies(
+            z3.And(j >= 0, j < rows.len),
+            z3.And(z3.Select(t.exists, src(j)),
+                   z3.Select(t.data['name'], src(j)) == nm(j))),
+            patterns=[z3.Select(rows.arr, j)]))
+        return _Rows(rows)
+
+    def sort_key_acc(rows, jj):
+        from pyvc.values import sort_of
+        ts = sort_of(('tuple', ('str',)))
+        return ts.accessor(0, 0)(z3.Select(rows.arr, jj))
+    reg['selects']['_trait_sync'] = names_select
+    I = Interp(ex, reg)
+    I.db = GhostDB(I, 'db')
+    for h in I.db.row_invariants():
+        ex.hyp(h)
+    ctx = lib.CtxStub()
+    I.ghost['ctx'] = ctx
+    t0 = I.db.tables['traits']
+    ex.oblige('C19.T.sync.library_symbols_are_not_custom',
+              all(not os_traits.is_custom(x_) for x_ in os_traits.get_traits()),
+              'T')
+    try:
+        I.call(trait_obj._trait_sync, [ctx], {})
+    except PyRaise as pr:
+        ex.oblige('C19.T.sync.no_raise', False, 'T',
+                  {'raised': pr.exc.cls.__name__, 'args': repr(pr.exc.args)})
+        return
+    t = I.db.tables['traits']
+    k = z3.Int('k!sync')
+    present = lambda tb, name: z3.Exists([k], z3.And(
+        z3.Select(tb.exists, k), z3.Select(tb.data['name'], k) == name))
+    wrote_ = wrote(I)
+    std = box['std']
+    j = z3.Int('j!syncpost')
+    # for a fresh index j0: the symbol has its old row, or the row inserted
+    # for it (witness spelled out: the row created for its position in the
+    # enumeration of the missing names)
+    j0 = z3.Int('j0!sync')
+    x0 = z3.Select(std.arr, j0)
+    bulk = I.ghost.get('bulk.traits')
+    alt = z3.BoolVal(False)
+    if bulk is not None:
+        newid, qof, n_, seq_ = bulk
+        idx = getattr(getattr(rows_of(I), 'seq', None), 'idx', None)
+        if idx is not None:
+            w = newid(idx(x0))
+            alt = z3.And(z3.Select(t.exists, w),
+                         z3.Select(t.data['name'], w) == x0)
+    ex.oblige('C19.T.sync.every_standard_trait_present', z3.Implies(
+        z3.And(j0 >= 0, j0 < std.len), z3.Or(present(t0, x0), alt)), 'T')
+    ex.oblige('C19.T.sync.existing_rows_kept', ops.forall([k], z3.Implies(
+        z3.Select(t0.exists, k), z3.And(
+            z3.Select(t.exists, k),
+            z3.Select(t.data['name'], k) == z3.Select(t0.data['name'], k))),
+        patterns=[z3.Select(t0.exists, k)]), 'T')
+    ex.oblige('C19.T.sync.adds_only_standard_names', ops.forall(
+        [k], z3.Implies(
+            z3.And(z3.Select(t.exists, k), z3.Not(z3.Select(t0.exists, k))),
+            z3.Exists([j], z3.And(j >= 0, j < std.len, z3.Select(
+                t.data['name'], k) == z3.Select(std.arr, j)))),
+        patterns=[z3.Select(t.exists, k)]), 'T')
+    # idempotence: a fully synchronised table is not written
+    full = ops.forall([j], z3.Implies(
+        z3.And(j >= 0, j < std.len), present(t0, z3.Select(std.arr, j))),
+        patterns=[z3.Select(std.arr, j)])
+    ex.oblige('C19.T.sync.idempotent', z3.Implies(
+        full, z3.BoolVal(not wrote_)), 'T')
 
 
 if __name__ == '__main__':
